@@ -18,6 +18,7 @@ func init() {
 }
 
 func runC03(e *core.Env) error {
+	rollbackRemovesAll(e, "c03")
 	r := e.Rand
 	nHist := e.N(40, 600)
 	plans := [][]string{{"block_time"}, {"block_time", "tx_input"}, {"block_time", "tx_status"}}
@@ -348,6 +349,11 @@ func runC03(e *core.Env) error {
 		if err != nil {
 			return err
 		}
+		cached := rep%2 == 1
+		if cached {
+			// every other repetition on a CACHING client (whatever it remembers per block number is about the old chain)
+			w.client = jrpc2.New(w.node.URL()).WithMaxReads(1 + rr.Intn(2)).WithPollDuration(time.Hour)
+		}
 		root := config.Root{Integrations: []config.Integration{transferIG("iga", "ta", []string{"block_time"}, nil)}}
 		if err := w.setupRoot(&root); err != nil {
 			w.close()
@@ -378,7 +384,7 @@ func runC03(e *core.Env) error {
 			verdict = fmt.Sprintf("start %d, reorg of depth %d (fork below start-1): stuck at %d, the head is %d", start, depth, w.taskTop(t), w.head())
 		}
 		e.Add(core.Case{Impl: verdict, Spec: "ok", Oracles: []string{w.projOracle(t, start-1)}, Nontrivial: true, Key: fmt.Sprintf("c03-fork-below-start %d %d", rep, e.Seed),
-			Tags: []string{"fork-below-configured-start"}, Detail: map[string]any{"start": start, "depth": depth, "history": strings.Split(strings.Join(w.ops, "\n"), "\n")}})
+			Tags: []string{"fork-below-configured-start", fmt.Sprintf("caching-client=%v", cached)}, Detail: map[string]any{"start": start, "depth": depth, "history": strings.Split(strings.Join(w.ops, "\n"), "\n")}})
 		w.close()
 	}
 	// ---- a LARGE batch size while following the head (one recorded position per block), then a reorg
@@ -512,6 +518,70 @@ func runC03(e *core.Env) error {
 		op, impl := w.caseOp()
 		e.Add(core.Case{Op: op, Impl: impl, Oracles: oracles, Nontrivial: true, Key: fmt.Sprintf("c03-part %d %d", rep, e.Seed),
 			Tags: []string{"reorg-between-partitions", fmt.Sprintf("cached-client=%v", cachedClient), fmt.Sprintf("partitions=%d", conc), fmt.Sprintf("mid-batch=%v", midBatch)}, Detail: map[string]any{"history": strings.Split(op, "\n")}})
+		w.close()
+	}
+	// ---- a reorg that lands INSIDE ONE Get, between its header request and its eth_getLogs request (a plan of
+	// headers + logs: the headers are of the old fork, the logs name the new fork's blocks). The step must fail
+	// or unwind; afterwards the table is the projection of the canonical chain.
+	for rep := 0; rep < e.N(4, 16) && !e.OverBudget(); rep++ {
+		rr := r.Fork()
+		w, err := newWorld(e, transferChain(8+rr.Intn(3), uint64(1+rr.Intn(1000))))
+		if err != nil {
+			return err
+		}
+		cachedClient := rep%2 == 1
+		if cachedClient {
+			w.client = jrpc2.New(w.node.URL()).WithMaxReads(2 + rr.Intn(3)).WithPollDuration(time.Hour)
+		}
+		root := config.Root{Integrations: []config.Integration{transferIG("ig1", "t1", []string{"block_time"}, nil)}}
+		if err := w.setupRoot(&root); err != nil {
+			w.close()
+			return err
+		}
+		t, err := w.addTask("t1", root.Integrations[0], "src1", 1, 0, 1+rep%3, 1)
+		if err != nil {
+			w.close()
+			return err
+		}
+		// index all but the last blocks, so that the next step reads at the head
+		for k := 0; k < 30 && !w.dead && w.taskTop(t) != w.head(); k++ {
+			w.step(t, noFault)
+		}
+		w.grow(1 + rep%3)
+		w.salt++
+		salt := w.salt
+		depth := 2 + rr.Intn(2)
+		fired := false
+		w.node.SetBefore(func(ex *simnode.Exchange) {
+			if fired {
+				return
+			}
+			for _, rq := range ex.Requests {
+				if rq.Method == "eth_getLogs" {
+					fired = true
+					c := w.node.Chain()
+					if d := min(depth, len(c.Blocks)-2); d >= 1 {
+						c.Reorg(d, d+1, simnode.GenOpts{Salt: salt, MakeTx: transferMakeTx})
+					}
+					return
+				}
+			}
+		})
+		w.step(t, noFault)
+		w.node.SetBefore(nil)
+		w.tags["reorg-between-headers-and-logs"]++
+		w.grow(1)
+		for k := 0; k < 60 && !w.dead; k++ {
+			if out := w.step(t, noFault); out == "nothing-new" && w.taskTop(t) == w.head() {
+				break
+			}
+		}
+		if w.taskTop(t) != w.head() {
+			e.Add(core.Case{Impl: fmt.Sprintf("task stuck at %d of %d", w.taskTop(t), w.head()), Spec: "converged", Key: fmt.Sprintf("c03-hl-stuck %d", rep)})
+		}
+		op, impl := w.caseOp()
+		e.Add(core.Case{Op: op, Impl: impl, Oracles: []string{w.projOracle(t, 0)}, Nontrivial: true, Key: fmt.Sprintf("c03-headers-logs %d %d", rep, e.Seed),
+			Tags: []string{"reorg-between-headers-and-logs", fmt.Sprintf("cached-client=%v", cachedClient), fmt.Sprintf("fired=%v", fired)}, Detail: map[string]any{"history": strings.Split(op, "\n")}})
 		w.close()
 	}
 	return nil
